@@ -2,6 +2,7 @@ package main
 
 import (
 	"fmt"
+	"go/constant"
 	"go/token"
 	"strings"
 
@@ -39,10 +40,34 @@ func stripConv(v ssa.Value) ssa.Value {
 // evalByteCond evaluates cond for byte value b if it is a comparison between the byte (possibly
 // widened) and a constant.
 func evalByteCond(cond ssa.Value, bv ssa.Value, b int64) (res bool, ok bool) {
+	return evalByteCondEnv(cond, bv, b, nil)
+}
+
+// resolvePhi follows the phi values fixed by the path walked so far.
+func resolvePhi(v ssa.Value, env map[*ssa.Phi]ssa.Value) ssa.Value {
+	for i := 0; i < 8; i++ {
+		ph, ok := v.(*ssa.Phi)
+		if !ok {
+			return v
+		}
+		nv, has := env[ph]
+		if !has {
+			return v
+		}
+		v = nv
+	}
+	return v
+}
+
+func evalByteCondEnv(cond ssa.Value, bv ssa.Value, b int64, env map[*ssa.Phi]ssa.Value) (res bool, ok bool) {
+	cond = resolvePhi(cond, env)
+	if c, isC := cond.(*ssa.Const); isC && c.Value != nil && c.Value.Kind() == constant.Bool {
+		return constant.BoolVal(c.Value), true
+	}
 	bo, isB := cond.(*ssa.BinOp)
 	if !isB {
 		if u, isU := cond.(*ssa.UnOp); isU && u.Op == token.NOT {
-			r, ok := evalByteCond(u.X, bv, b)
+			r, ok := evalByteCondEnv(u.X, bv, b, env)
 			return !r, ok
 		}
 		return false, false
@@ -102,6 +127,12 @@ func byteDecision(bv ssa.Value, start *ssa.BasicBlock, startIdx int) [256]byteLe
 		blk := start
 		idx := startIdx
 		steps := 0
+		env := map[*ssa.Phi]ssa.Value{}
+		step := func(to *ssa.BasicBlock) {
+			enterBlock(env, blk, to)
+			blk = to
+			idx = 0
+		}
 		for {
 			steps++
 			if steps > 200 {
@@ -118,37 +149,35 @@ func byteDecision(bv ssa.Value, start *ssa.BasicBlock, startIdx int) [256]byteLe
 			}
 			term := blk.Instrs[len(blk.Instrs)-1]
 			if !pure {
-				out[b] = byteLeaf{Block: blk, Effects: leafEffects(blk, idx, start)}
+				out[b] = byteLeaf{Block: blk, Effects: leafEffectsEnv(blk, idx, start, env)}
 				break
 			}
 			switch t := term.(type) {
 			case *ssa.If:
-				r, ok := evalByteCond(t.Cond, bv, int64(b))
+				r, ok := evalByteCondEnv(t.Cond, bv, int64(b), env)
 				if !ok {
-					out[b] = byteLeaf{blk, leafEffects(blk, idx, start), "condition not a comparison of the byte with a constant: " + pathOf(t.Cond)}
+					out[b] = byteLeaf{blk, leafEffectsEnv(blk, idx, start, env), "condition not a comparison of the byte with a constant: " + pathOf(t.Cond)}
 					goto next
 				}
 				if r {
-					blk = blk.Succs[0]
+					step(blk.Succs[0])
 				} else {
-					blk = blk.Succs[1]
+					step(blk.Succs[1])
 				}
-				idx = 0
 				if blk == start {
 					out[b] = byteLeaf{Block: blk, Effects: "loop"}
 					goto next
 				}
 				continue
 			case *ssa.Jump:
-				blk = blk.Succs[0]
-				idx = 0
+				step(blk.Succs[0])
 				if blk == start {
 					out[b] = byteLeaf{Block: blk, Effects: "loop"}
 					goto next
 				}
 				continue
 			default:
-				out[b] = byteLeaf{Block: blk, Effects: leafEffects(blk, idx, start)}
+				out[b] = byteLeaf{Block: blk, Effects: leafEffectsEnv(blk, idx, start, env)}
 			}
 			break
 		}
@@ -157,9 +186,43 @@ func byteDecision(bv ssa.Value, start *ssa.BasicBlock, startIdx int) [256]byteLe
 	return out
 }
 
+// enterBlock records, for every phi of block to, the value it takes when entered from block from.
+func enterBlock(env map[*ssa.Phi]ssa.Value, from, to *ssa.BasicBlock) {
+	pi := -1
+	for i, p := range to.Preds {
+		if p == from {
+			pi = i
+		}
+	}
+	if pi < 0 {
+		return
+	}
+	// phis read their operands simultaneously: resolve against the environment before this entry
+	upd := map[*ssa.Phi]ssa.Value{}
+	for _, in := range to.Instrs {
+		ph, ok := in.(*ssa.Phi)
+		if !ok {
+			break
+		}
+		upd[ph] = resolvePhi(ph.Edges[pi], env)
+	}
+	for k, v := range upd {
+		env[k] = v
+	}
+}
+
 // leafEffects lists the side effects starting at blk[idx:], following unconditional jumps
 // until a return, a branch, or the loop head.
 func leafEffects(blk *ssa.BasicBlock, idx int, loopHead *ssa.BasicBlock) string {
+	return leafEffectsEnv(blk, idx, loopHead, map[*ssa.Phi]ssa.Value{})
+}
+
+func leafEffectsEnv(blk *ssa.BasicBlock, idx int, loopHead *ssa.BasicBlock, env0 map[*ssa.Phi]ssa.Value) string {
+	env := map[*ssa.Phi]ssa.Value{}
+	for k, v := range env0 {
+		env[k] = v
+	}
+	valDesc := func(v ssa.Value) string { return valDesc(resolvePhi(v, env)) }
 	var eff []string
 	seen := map[*ssa.BasicBlock]bool{}
 	for blk != nil && !seen[blk] {
@@ -190,6 +253,7 @@ func leafEffects(blk *ssa.BasicBlock, idx int, loopHead *ssa.BasicBlock) string 
 		if len(blk.Succs) != 1 {
 			break
 		}
+		enterBlock(env, blk, blk.Succs[0])
 		blk = blk.Succs[0]
 		idx = 0
 		if blk == loopHead {
